@@ -54,7 +54,7 @@ def features(c):
 def run(ctx):
     ctx.tlc_ok("NumericCases", CFG, workers=1, timeout=1800)
     cases = ctx.read_ndjson("c13_cases.ndjson")
-    fn_cases, sql_cases = [], []
+    fn_cases, sql_cases, variants = [], [], []
     for i, c in enumerate(cases):
         if c["fn"] in ("unix_roundtrip", "coalesce_int_parse", "coalesce_float_parse"):
             sql_cases.append((i, c))
@@ -62,9 +62,15 @@ def run(ctx):
         q = {"id": i, "fn": c["fn"], "args": [conv(a) for a in c["args"]]}
         if c["fn"] == "coalesce":
             q["types"] = [INTN for _ in c["args"]]
+            # the same call with other static typings of its arguments: exact (a NULL argument has type NULL, e.g. a NULL literal or a column that only held
+            # NULLs), and wide (NULL | Int | String, as file schema inference produces)
+            exact = [{"k": "prim", "n": "Null"} if a.get("t") == "null" else {"k": "prim", "n": "Int"} for a in q["args"]]
+            wide = [{"k": "union", "a": [{"k": "prim", "n": "Null"}, {"k": "prim", "n": "Int"}, {"k": "prim", "n": "String"}]} for _ in q["args"]]
+            variants.append((i, dict(q, id="%d:exact" % i, types=exact)))
+            variants.append((i, dict(q, id="%d:wide" % i, types=wide)))
         fn_cases.append(q)
     inp, out = ctx.scratch + "/c13_q.ndjson", ctx.scratch + "/c13_r.ndjson"
-    ctx.write_ndjson(inp, fn_cases)
+    ctx.write_ndjson(inp, fn_cases + [v for _, v in variants])
     ctx.driver("fn-eval", ["-in", inp, "-out", out], timeout=1800)
     res = {x["id"]: x for x in ctx.read_ndjson(out)}
     # composite expression through the SQL engine
@@ -104,6 +110,14 @@ def run(ctx):
             continue
         if not matches(c["exp"], x["value"], x.get("f64")):
             ctx.violation(dict(sig, law="result"), shown, expected=c["exp"], observed={"value": x["value"], "f64": x.get("f64")}, note="%s differs from its definition" % c["fn"])
+    for i, v in variants:
+        c, x = cases[i], res[v["id"]]
+        if "unpinned" in c["exp"] or x["stage"] in ("typecheck", "materialize"):
+            continue
+        pinned += 1
+        if x["stage"] != "" or not matches(c["exp"], x["value"], x.get("f64")):
+            ctx.violation(dict({"site": "functions.coalesce", "typing": v["id"].split(":")[1]}, **features(c)), {"fn": c["fn"], "args": c["args"], "argtypes": v["types"]}, expected=c["exp"],
+                          observed=x["value"] if x["stage"] == "" else x["stage"] + ": " + x["err"], note="COALESCE differs from its definition under this static typing of its arguments")
     if skipped > 0.2 * len(cases):
         raise core.Machinery("too many cases rejected by the typechecker: %d" % skipped)
     ctx.cover(evaluations=len(cases), distinct=pinned, sample={"fn": cases[7]["fn"], "args": cases[7]["args"], "exp": cases[7]["exp"]})
